@@ -103,12 +103,19 @@ def _same_name(x, y):
     return x == y or (_DEFAULT.match(x) and _DEFAULT.match(y))
 
 
-def _same_params(a, b):
-    """per class: parameters with a proper name correspond by name (any order: the order inside a class is not
-    semantic, e.g. a new covariance is appended in memory and written row-wise); parameters with a default name
-    (THETA_n, OMEGA_i_j, SIGMA_i_j: positions, not names) are compared as multisets of values"""
+def _same_params(a, b, exact=True):
+    """per class: parameters correspond by NAME (any order: the order inside a class is not semantic, e.g. a new
+    covariance is appended in memory and written row-wise).  `exact=False` (only after the removal of a random effect
+    that precedes default-named ones - a known deviation, see finding_default_name_after_removal): parameters with a
+    default name (THETA_n, OMEGA_i_j, SIGMA_i_j) are compared as multisets of values"""
     def eq(x, y):
         return x[4] == y[4] and all(_close(u, v) for u, v in zip(x[1:4], y[1:4]))
+    if exact:
+        for c in ('theta', 'omega', 'sigma'):
+            na, nb = {x[0]: x for x in a[c]}, {y[0]: y for y in b[c]}
+            if len(na) != len(a[c]) or set(na) != set(nb) or any(not eq(na[n], nb[n]) for n in na):
+                return False
+        return True
     for c in ('theta', 'omega', 'sigma'):
         if len(a[c]) != len(b[c]):
             return False
@@ -154,7 +161,19 @@ def _same_rvs(a, b):
     return True
 
 
+REGION = os.environ.get('VH_REGION', 'main')
+
+
 def _body(idx, edit):
+    # known finding (C04-default-omega-name-after-removal): removing the FIRST random effect leaves the later,
+    # default-named OMEGA_2_2 in memory while the generated code re-reads it as OMEGA_1_1 (no name comment is
+    # written).  Region 'default_name_after_removal' demands exact names there; the main region compares the
+    # default-named parameters of that one edit by value.
+    loose = EDITS[edit] == 'remove_iiv_first'
+    if REGION == 'default_name_after_removal':
+        if not loose:
+            return None
+        loose = False
     full = [0] * len(B.SLOTS)
     for s, j in zip(SL, idx):
         full[s] = j
@@ -171,7 +190,7 @@ def _body(idx, edit):
     except Exception as e:            # noqa
         raise AssertionError(f'{EDITS[edit]} on {text!r}: generated code cannot be read again '
                              f'({type(e).__name__}: {str(e)[:120]}): {code!r}')
-    if not _same_params(_pvec(back), _pvec(m2)):
+    if not _same_params(_pvec(back), _pvec(m2), exact=not loose):
         raise AssertionError(f'{EDITS[edit]} on layout {idx}: re-read parameters {_pvec(back)} != in-memory {_pvec(m2)}; '
                              f'code {code!r}')
     if not _same_rvs(_rvs(back), _rvs(m2)):
@@ -254,7 +273,7 @@ def _body4(lay, edit):
     except Exception as e:            # noqa
         raise AssertionError(f'{EDITS4[edit]} on {OMEGA4[lay]!r}: generated code cannot be read again '
                              f'({type(e).__name__}: {str(e)[:120]}): {code!r}')
-    if not _same_params(_pvec(back), _pvec(m2)):
+    if not _same_params(_pvec(back), _pvec(m2), exact=not EDITS4[edit].startswith('remove_')):
         raise AssertionError(f'{EDITS4[edit]} on {OMEGA4[lay]!r}: re-read parameters {_pvec(back)} != in-memory '
                              f'{_pvec(m2)}; code {code!r}')
     if not _same_rvs(_rvs(back), _rvs(m2)):
@@ -285,3 +304,83 @@ def model_params4__twin(lay: int, edit: int) -> bool:
     codes = [B._pick(lay, 0, NO4), B._pick(edit, 0, NE4)]
     with _NoTracing():
         return _body4(*codes) is not True
+
+
+# ---------------------------------------------------------------------------------------------------------------
+# five etas: a multi-value diagonal record followed by a BLOCK(3); parts of the block are split off, so records of
+# default-named omegas are re-written at other positions than their names say (their names must be carried by comments)
+
+PK5 = ('$SUBROUTINE ADVAN1 TRANS2\n$PK\nCL = THETA(1)*EXP(ETA(1))\nV = THETA(2)*EXP(ETA(2))\nS1 = V*EXP(ETA(3))\n'
+       'ZZ = EXP(ETA(4))\nZY = EXP(ETA(5))\n')
+OMEGA5 = ['$OMEGA 0.1 0.2\n$OMEGA BLOCK(3)\n0.3\n0.01 0.4\n0.01 0.02 0.5\n',
+          '$OMEGA BLOCK(3)\n0.1\n0.01 0.2\n0.01 0.02 0.3\n$OMEGA 0.4 0.5\n',
+          '$OMEGA 0.1\n$OMEGA BLOCK(3)\n0.2\n0.01 0.3\n0.01 0.02 0.4\n$OMEGA 0.5\n',
+          '$OMEGA 0.1 0.2 ; two\n$OMEGA BLOCK(2)\n0.3\n0.01 0.4\n$OMEGA 0.5\n']
+EDITS5 = ['split_a', 'split_b', 'split_c', 'split_ab', 'split_bc', 'split_ac', 'split_all', 'join_first_two', 'join_all',
+          'split_bc_then_init']
+NO5, NE5 = len(OMEGA5), len(EDITS5)
+
+
+def _apply5(m, e):
+    # a, b, c: the members of the (first) joint block
+    block = next(d for d in m.random_variables.etas if len(d.names) > 1)
+    member = dict(zip('abc', block.names))
+    if e == 'split_all':
+        return pm.split_joint_distribution(m)
+    if e == 'join_all':
+        return pm.create_joint_distribution(m, individual_estimates=None)
+    if e == 'join_first_two':
+        return pm.create_joint_distribution(m, m.random_variables.etas.names[:2], individual_estimates=None)
+    keys = e.split('_')[1]
+    names = [member[k] for k in keys if k in member]
+    if len(names) != len(keys):
+        raise ValueError('block too small')
+    m1 = pm.split_joint_distribution(m, names)
+    if e.endswith('then_init'):
+        m1 = m1.update_source()
+        return pm.set_initial_estimates(m1, {m1.random_variables.etas.parameter_names[-1]: 0.45})
+    return m1
+
+
+def _body5(lay, edit):
+    text = ''.join(B.SLOTS[i][0] for i in range(4)) + PK5 + B.SLOTS[5][0] + B.SLOTS[6][0] + OMEGA5[lay] + \
+        B.SLOTS[8][0] + B.SLOTS[9][0]
+    m = Model.parse_model_from_string(text)
+    try:
+        m2 = _apply5(m, EDITS5[edit])
+    except (ValueError, NotImplementedError):
+        return None
+    m2 = m2.update_source()
+    code = m2.code
+    try:
+        back = Model.parse_model_from_string(code)
+    except Exception as e:            # noqa
+        raise AssertionError(f'{EDITS5[edit]} on {OMEGA5[lay]!r}: generated code cannot be read again '
+                             f'({type(e).__name__}: {str(e)[:120]}): {code!r}')
+    if not _same_params(_pvec(back), _pvec(m2), exact=True):
+        raise AssertionError(f'{EDITS5[edit]} on {OMEGA5[lay]!r}: re-read parameters {_pvec(back)} != in-memory '
+                             f'{_pvec(m2)}; code {code!r}')
+    if not _same_rvs(_rvs(back), _rvs(m2)):
+        raise AssertionError(f'{EDITS5[edit]} on {OMEGA5[lay]!r}: re-read random variables {_rvs(back)} != in-memory '
+                             f'{_rvs(m2)}; code {code!r}')
+    return True
+
+
+def model_params5(lay: int, edit: int) -> bool:
+    """
+    pre: 0 <= lay < NO5 and 0 <= edit < NE5
+    post: _ in (True, None)
+    """
+    codes = [B._pick(lay, 0, NO5), B._pick(edit, 0, NE5)]
+    with _NoTracing():
+        return _body5(*codes)
+
+
+def model_params5__twin(lay: int, edit: int) -> bool:
+    """
+    pre: 0 <= lay < NO5 and 0 <= edit < NE5
+    post: _ == True
+    """
+    codes = [B._pick(lay, 0, NO5), B._pick(edit, 0, NE5)]
+    with _NoTracing():
+        return _body5(*codes) is not True
